@@ -69,6 +69,15 @@ def gen(S, tier):
     # a '--' tail needs somewhere to go: the trailing multi-valued argument
     use_tail = w.chance(0.3) and any(a[0] == "rest" for a in cmd["args"])
     tail, exp_args, exp_opts = apptree.gen_line(w, chain, fill_all=use_tail)
+    lenient_surplus = False
+    if plain_target and not use_tail and not cmd["subs"] and c.chance(0.15):
+        # a command that parses leniently and has no catch-all argument, called with more arguments
+        # than it declares: the extra tokens are skipped - and whatever follows them is still read
+        cmd["lenient"] = True
+        cmd["args"] = [a for a in cmd["args"] if a[0] != "rest"]
+        tail, exp_args, exp_opts = apptree.gen_line(w, chain, fill_all=True)
+        tail = list(tail) + ["zz%d" % i for i in range(w.randint(1, 2))]
+        lenient_surplus = True
     kinds = [k for k in SWITCHES if w.chance(0.3)]
     # at most one verbosity switch
     vs = [k for k in kinds if k in LEVEL_OF]
@@ -113,7 +122,7 @@ def gen(S, tier):
         "input": f.pick([[], [], ["y\n"], ["n\n"], ["\n"]]),
         # how the handler is attached: an object, or a factory that builds one when asked; with the
         # version switch after the path the handler is not needed at all - the factory may be broken
-        "app_style": c.chance(0.3),
+        "app_style": c.chance(0.3), "lenient_surplus": lenient_surplus,
         "handler_kind": ("factory_raises" if ("version" in kinds and "help" not in kinds and all(p_ >= len(path) for _, _, p_ in switches) and f.chance(0.5))
                          else c.pick(["object", "object", "factory"])),
     }
